@@ -418,6 +418,32 @@ func main() {
 	countCalls("project.go", "Project.Run", "Run")
 	o.Def("clientCalls", "List String", leanList(client))
 	depRecording(o, *repo)
+	// how Project.Run invokes the runner: function and arguments (the limit must stay the runner's own, NumCPU)
+	if cf, err := lib.Parse(*repo, "project.go"); err == nil {
+		if fd := cf.Func("Project.Run"); fd != nil && fd.Body != nil {
+			o.Def("skel_Project_Run", "String", lib.LeanLongString(lib.NormFuncKeep(fd, func(s ast.Stmt) bool {
+				switch s.(type) {
+				case *ast.IfStmt, *ast.ForStmt, *ast.RangeStmt, *ast.SwitchStmt, *ast.BlockStmt:
+					return false
+				}
+				return mentions(s, "runner")
+			})))
+		} else {
+			o.Fail("Project.Run not found")
+			o.Def("skel_Project_Run", "String", `""`)
+		}
+	} else {
+		o.Fail("parse project.go: %v", err)
+		o.Def("skel_Project_Run", "String", `""`)
+	}
+	// every exported entry point of package runner that starts a build
+	var entry []string
+	for _, d := range f.AST.Decls {
+		if fd, ok := d.(*ast.FuncDecl); ok && fd.Recv == nil && fd.Name.IsExported() {
+			entry = append(entry, fd.Name.Name)
+		}
+	}
+	o.Def("runnerEntryPoints", "List String", leanList(entry))
 	// the dependency-error branch of runTarget.Evaluate: any result error fails the target
 	if cf, err := lib.Parse(*repo, "target.go"); err == nil {
 		if fd := cf.Func("runTarget.Evaluate"); fd != nil {
